@@ -132,6 +132,10 @@ fn split(bytes: &[u8]) -> (u8, usize, &[u8]) {
 
 pub const MUTATIONS: usize = 12;
 
+/// Operation id of the "are you still serving?" ping appended to cases whose inbound bytes are
+/// all well-formed packets.
+pub const LIVENESS_PING: usize = 9000;
+
 /// Applies mutation `m` to a well-formed packet; returns the bytes to deliver.
 pub fn mutate(rng: &mut Rng, bytes: &[u8], m: usize) -> Vec<u8> {
     let (first, hdr, body) = split(bytes);
@@ -389,6 +393,24 @@ pub fn systematic(thorough: bool, seed: u64) -> Vec<Case> {
         steps.extend(tail);
         Case { scenario: Scenario { config: config.clone(), steps }, aux: None, profile: "hostile/systematic", gen_hash: None, systematic: true }
     };
+    let liveness = vec![
+        Step::Op { id: LIVENESS_PING, handle: 0, spec: OpSpec::Ping },
+        Step::Settle { seed: 6 },
+        Step::Broker { pkt: BrokerPkt::Pingresp, chunks: Chunks::Whole, hold: false },
+        Step::Broker { pkt: BrokerPkt::Pingresp, chunks: Chunks::Whole, hold: false },
+        Step::Settle { seed: 7 },
+    ];
+    // large well-formed packets: 2- , 3- and 4-byte remaining lengths
+    for n in [100usize, 200, 20_000, 2_097_152 - 8, 2_100_000] {
+        let p = Packet::Publish(rc::Publish { dup: false, qos: 1, retain: false, topic: "a".into(), pid: Some(3), props: Props::new().with(pid::SUBSCRIPTION_ID, PropVal::VarInt(1)), payload: vec![b'x'; n] });
+        for chunks in [Chunks::Whole, Chunks::Each(65_536), Chunks::Sizes(vec![4])] {
+            let mut steps = run_prefix.clone();
+            steps.push(Step::Broker { pkt: BrokerPkt::Raw(encode(&p)), chunks, hold: false });
+            steps.push(Step::Settle { seed: 3 });
+            steps.extend(liveness.clone());
+            cases.push(Case { scenario: Scenario { config: config.clone(), steps }, aux: None, profile: "hostile/large-valid-packets", gen_hash: None, systematic: true });
+        }
+    }
     let samples = if thorough { 6 } else { 2 };
     for &k in SERVER_KINDS {
         for _ in 0..samples {
@@ -410,8 +432,9 @@ pub fn systematic(thorough: bool, seed: u64) -> Vec<Case> {
                 v.extend_from_slice(&[0xd0, 0x00, 0xd0, 0x00]);
                 cases.push(mk(&run_prefix, v, vec![]));
             }
-            // (c) the intact packet at both phases (wrong phase for most)
-            cases.push(mk(&run_prefix, b.clone(), vec![]));
+            // (c) the intact packet at both phases (wrong phase for most); while running, the
+            // client must either return or keep serving: a ping issued afterwards completes
+            cases.push(mk(&run_prefix, b.clone(), liveness.clone()));
             cases.push(mk(&connect_prefix, b.clone(), vec![]));
         }
     }
